@@ -41,16 +41,31 @@ def verify(src: Path, pid: str, k: str) -> dict:
     return out
 
 
-def run_check(patch: Path, pid: str, tier: str = "quick") -> dict:
-    if sh("git -C /repo diff --quiet").returncode != 0:
-        raise SystemExit("/repo is dirty; refusing")
-    a = sh(f"git -C /repo apply {patch}")
-    if a.returncode != 0:
-        return {"applies": False, "detail": a.stderr[-200:]}
-    try:
-        r = sh(f"cd {VERIF} && ./check {pid} --tier {tier}")
-    finally:
-        sh("git -C /repo checkout -- . && git -C /repo clean -fdq src")
+def run_check(patch: Path, pid: str, tier: str = "quick", in_repo: bool = False) -> dict:
+    """Run the check on the changed tree: either on /repo itself (apply, check, undo at once) or,
+    by default, on a scratch copy of /repo/src handed to the check through VERIF_REPO (so that other
+    work that reads /repo at the same time never sees the change)."""
+    if in_repo:
+        if sh("git -C /repo diff --quiet").returncode != 0:
+            raise SystemExit("/repo is dirty; refusing")
+        a = sh(f"git -C /repo apply {patch}")
+        if a.returncode != 0:
+            return {"applies": False, "detail": a.stderr[-200:]}
+        try:
+            r = sh(f"cd {VERIF} && VERIF_SELFTEST=1 ./check {pid} --tier {tier}")
+        finally:
+            sh("git -C /repo checkout -- . && git -C /repo clean -fdq src")
+    else:
+        import tempfile
+        tmp = Path(tempfile.mkdtemp(prefix="vsp_"))
+        try:
+            shutil.copytree("/repo/src", tmp / "src")
+            a = sh(f"patch -p1 -s -i {patch}", cwd=str(tmp))
+            if a.returncode != 0:
+                return {"applies": False, "detail": (a.stdout + a.stderr)[-200:]}
+            r = sh(f"cd {VERIF} && VERIF_REPO={tmp} VERIF_SELFTEST=1 ./check {pid} --tier {tier}")
+        finally:
+            shutil.rmtree(tmp, ignore_errors=True)
     lines = [l for l in r.stdout.splitlines() if not l.startswith("WARNING conda")]
     rules = sorted(set(re.findall(r"\[(C\d+\.[A-Z0-9]+)\]", r.stdout)))
     return {"applies": True, "exit": r.returncode, "rules": rules,
@@ -61,6 +76,8 @@ def run_check(patch: Path, pid: str, tier: str = "quick") -> dict:
 def main(argv: list[str]) -> int:
     src = Path("/tmp/seed")
     do_verify = True
+    offset = 0
+    in_repo = False
     ids = []
     it = iter(argv)
     for a in it:
@@ -68,6 +85,10 @@ def main(argv: list[str]) -> int:
             src = Path(next(it))
         elif a == "--no-verify":
             do_verify = False
+        elif a == "--offset":
+            offset = int(next(it))
+        elif a == "--in-repo":
+            in_repo = True
         else:
             ids.append(a)
     jobs = [(pid, d.name) for pid in ids for d in sorted((src / pid).iterdir())
@@ -80,17 +101,19 @@ def main(argv: list[str]) -> int:
     for pid, k in jobs:
         d = src / pid / k
         v = ver.get((pid, k), {})
-        chk = run_check(d / "patch.diff", pid)
+        chk = run_check(d / "patch.diff", pid, in_repo=in_repo)
         caught = chk.get("applies") and chk.get("exit") == 1
         status = "CAUGHT" if caught else ("ANALYSIS-ERROR" if chk.get("exit") == 2 else
                                           ("NOT-APPLICABLE-PATCH" if not chk.get("applies") else "MISSED"))
-        print(f"{pid}-{k}: confirmed={v.get('confirmed')} check={status} rules={chk.get('rules')}")
+        print(f"{pid}-{k}{f' (-> {int(k) + offset})' if offset and k.isdigit() else ''}: "
+              f"confirmed={v.get('confirmed')} check={status} rules={chk.get('rules')}")
         for l in chk.get("violation_lines", [])[:2] + chk.get("analysis_error", []):
             print("      ", l[:220])
         if do_verify and not v.get("confirmed"):
             print("       verification:", v.get("raw"))
             continue
-        dest = VERIF / "seeded" / f"{pid}-{k}"
+        kk = str(int(k) + offset) if k.isdigit() else k
+        dest = VERIF / "seeded" / f"{pid}-{kk}"
         dest.mkdir(parents=True, exist_ok=True)
         shutil.copy(d / "patch.diff", dest / "patch.diff")
         shutil.copy(d / "demo.py", dest / "demo.py")
@@ -103,7 +126,8 @@ def main(argv: list[str]) -> int:
             "repo_head": head,
             "ran": [f"tools/verify_seed.sh {pid} {k}: git apply in a scratch worktree of /repo HEAD; "
                     "pytest tests -n 6; demo.py with the patch; demo.py after git checkout",
-                    f"git -C /repo apply patch.diff; ./check {pid} --tier quick; git -C /repo checkout -- ."],
+                    (f"git -C /repo apply patch.diff; ./check {pid} --tier quick; git -C /repo checkout -- ." if in_repo
+                     else f"patch applied to a scratch copy of /repo/src; VERIF_REPO=<copy> ./check {pid} --tier quick")],
             "suite_with_change": v.get("suite"), "demo_exit_with_change": v.get("demo_with"),
             "demo_exit_without_change": v.get("demo_without"),
         }
